@@ -20,7 +20,8 @@ from pathlib import Path
 
 from . import common
 from .common import Check, enc
-from .c01 import render_cond, gen_cond, balanced, normalise, parse_items, unparse_items, shrink_candidates
+from .c01 import gen_cond as gen_cond_c01
+from .c01 import render_cond, balanced, normalise, parse_items, unparse_items, shrink_candidates
 
 BASE = ["B"]                         # stands for the scratch directory in every message
 DIRS = [["src"], ["inc1"], ["inc2"], ["src", "sub"]]
@@ -146,6 +147,13 @@ def render_args(args, base):
 
 
 # ---------------------------------------------------------------- generation
+def gen_cond(rng):
+    c = gen_cond_c01(rng)
+    if c[0] == "Bad" and rng.random() < 0.85:          # malformed expressions are C02's subject: keep a few
+        return ["Defd", rng.choice(FLAGS + VALS)]
+    return c
+
+
 def gen_plain(rng, names, unk_rate):
     r = rng.random()
     if r < unk_rate:
@@ -175,7 +183,9 @@ def gen_plain(rng, names, unk_rate):
             return [["Inc", ["Q", n]]]
         if rr < 0.88:
             return [["Inc", ["A", n]]]
-        return [["Inc", ["M", rng.choice(PMACS)]]]
+        m = rng.choice(PMACS)
+        pre = [["Undef", m], ["Def", m, ["P", rng.random() < 0.4, rng.choice(names)]]] if rng.random() < 0.85 else []
+        return pre + [["Inc", ["M", m]]]
     return [["Code"]]
 
 
@@ -240,16 +250,17 @@ def gen_args(rng, names, cc, malformed):
     return args
 
 
-def gen_case(rng, malformed=False, phrase=False):
+def gen_case(rng, malformed=False, phrase=False, unk=None):
     """A code base with a KNOWN set of unhonourable inputs."""
-    unk_rate = rng.choice([0.0, 0.05, 0.15])
-    ghost_rate = rng.choice([0.0, 0.3, 0.6])
+    unk_rate = rng.choice([0.0, 0.08, 0.15]) if unk is None else unk
+    ghost_rate = rng.choice([0.0, 0.6, 0.6, 0.9])
     present = [[h] for h in rng.sample(HDRS, rng.randint(1, 3))]
     if rng.random() < 0.3:
         present.append(["sub", rng.choice(HDRS)])
     ghosts = rng.sample(GHOSTS, rng.randint(1, 2)) if rng.random() < ghost_rate or ghost_rate > 0.5 else []
     if phrase:
-        ghosts = ghosts + [[rng.choice(["system include", "user include"]), "p.h"]]
+        # the phrases of the two categories, and near misses that must NOT be counted
+        ghosts = ghosts + [[rng.choice(["system include", "user include", "users", "system", "user_include", "include"]), "p.h"]]
     names = present + ghosts
     files = {}
     order = list(present)
@@ -463,6 +474,9 @@ class C18(Check):
         self.cli_runs = 0
         self.ncases = 0
         self.events_total = 0
+        self.oracle_cases = 0
+        self.oracle_skipped = 0
+        self.oracle_bad = []
 
     # ---- generation ----
     def generate(self):
@@ -477,7 +491,7 @@ class C18(Check):
             out.append(c)
         for _ in range(n // 6):
             out.append(gen_case(self.rng, malformed=True))
-        for _ in range(n // 20):
+        for _ in range(n // 10):
             out.append(gen_case(self.rng, phrase=True))
         return out
 
@@ -741,8 +755,54 @@ class C18(Check):
                         break
         return [files, platforms, opt]
 
+    # ---- S versus gcc -M -MG (the set of missing headers a translation unit reaches) ----
+    def self_tests(self):
+        if shutil.which("gcc") is None:
+            return []
+        n = 40 if self.tier == "quick" else 500
+        singles = []
+        for _ in range(n):
+            files, platforms, _ = gen_case(self.rng, unk=0.0)
+            present = {pstr(p) for p, _ in files}
+            cand = [(f, args) for _, es in platforms for f, cc, args in es if cc is not None and pstr(f) in present and f[-1].endswith((".c", ".cpp"))]
+            if not cand:
+                continue
+            f, args = self.rng.choice(cand)
+            args = [["I", False, x[2]] if x[0] == "I" else x for x in args if x[0] in ("I", "D", "F")] + [["I", False, ["empty"]]]
+            singles.append([files, [["P0", [[f, "gcc", args]]]], {"cli": False}])
+        answers = common.run_model("C18", [self.encode(c) for c in singles])
+        root = common.scratch() / "c18gcc"
+        problems = []
+        for c, ans in zip(singles, answers):
+            sa = self.spec(c, ans)
+            files, platforms, _ = c
+            f, _, args = platforms[0][1][0]
+            self.materialise(c, root)
+            (root / "empty").mkdir(exist_ok=True)
+            cwd = root.joinpath(*f[:-1])
+            pr = subprocess.run(["gcc", "-M", "-MG", "-undef", "-nostdinc"] + render_args(args, str(root)) + [str(root.joinpath(*f))],
+                                cwd=cwd, capture_output=True, text=True)
+            self.oracle_cases += 1
+            if pr.returncode != 0 or pr.stderr.strip() or sa is None or sa[0] != "Ok" or not self.in_domain(c, sa):
+                self.oracle_skipped += 1
+                continue
+            deps = pr.stdout.replace("\\\n", " ").split(":", 1)[1].split()
+            # everything is given to gcc by absolute path, so a header it FOUND is printed with an absolute
+            # path; a missing one (assumed generated, -MG) is printed as requested
+            # (a forced include found in gcc's working directory - the unit's directory - is printed as given)
+            forced_found = {pstr(x[1]) for x in args if x[0] == "F" and os.path.exists(os.path.join(cwd, pstr(x[1])))}
+            missing = {d for d in deps if not os.path.isabs(d) and d not in forced_found}
+            expected = {e[3] for e in sa[1] if e[0] == "missing-include"} | {e[2] for e in sa[1] if e[0] == "missing-forced"}
+            if missing != expected:
+                self.oracle_bad.append({"case": c, "gcc_missing": sorted(missing), "spec_missing": sorted(expected)})
+        if self.oracle_bad:
+            problems.append(f"S disagrees with gcc -M -MG on {len(self.oracle_bad)} of {self.oracle_cases} units: {json.dumps(self.oracle_bad[0])}")
+        return problems
+
     def extra_coverage(self):
-        return {"event_kinds_observed": self.kinds, "cli_runs": self.cli_runs,
+        return {"spec_oracle_cases": self.oracle_cases, "spec_oracle_disagreements": len(self.oracle_bad),
+                "spec_oracle_diagnosed_or_out_of_domain": self.oracle_skipped,
+                "event_kinds_observed": self.kinds, "cli_runs": self.cli_runs,
                 "mean_events_per_case": round(self.events_total / max(1, self.ncases), 2)}
 
 
